@@ -1,0 +1,14 @@
+//go:build verif
+
+// Contracts for the govc verifier (see /verif/DESIGN.md). Comment-only file.
+package commission
+
+//@ # abstract view: the competing commission proposals voted for a height
+//@ ghost commissionVotes(c *Commission, h uint64) []*Model
+
+//@ # representation axiom (assumed): the lazily loading getter returns the view and changes nothing observable
+//@ func (*Commission).GetVotes
+//@   trusted
+//@   ensures result == commissionVotes(c, height)
+//@   ensures forall i int :: 0 <= i && i < len(result) ==> result[i] != nil
+//@   modifies mapof(c.list)
